@@ -60,6 +60,7 @@ Definition hs_eqb (a b : hsphase) : bool :=
 Record pstate := mkP {
   p_sess : Z;                       (* sessionID of this incarnation *)
   p_notify : bool;                  (* deliveryConfirmation *)
+  p_fix : bool;                     (* registration rule: true = demandUpTo := min(demandUpTo, currentSeq) (fixes/C43-*.diff), false = currentSeq *)
   p_cur : Z;                        (* currentSeq *)
   p_conf : Z;                       (* confirmedSeq *)
   p_unconf : list (Z * Z);          (* unconfirmed: (messageID, seq) ascending *)
@@ -79,11 +80,11 @@ Record pstate := mkP {
   p_log : list Z                    (* ghost: message ids in storage order; seq k is the k-th *)
 }.
 
-Definition p_init (sess : Z) (notify : bool) : pstate :=
-  mkP sess notify 0 0 [] false 0 0 0 HsIdle 0 0 0 false 0 0 false 1 [].
+Definition p_init (sess : Z) (notify fx : bool) : pstate :=
+  mkP sess notify fx 0 0 [] false 0 0 0 HsIdle 0 0 0 false 0 0 false 1 [].
 
 Definition set_failed (s : pstate) : pstate :=
-  mkP (p_sess s) (p_notify s) (p_cur s) (p_conf s) (p_unconf s) (p_reg s) (p_nonce s) (p_demand s) (p_span s)
+  mkP (p_sess s) (p_notify s) (p_fix s) (p_cur s) (p_conf s) (p_unconf s) (p_reg s) (p_nonce s) (p_demand s) (p_span s)
       (p_hs s) (p_tok s) (p_pmid s) (p_pseq s) (p_stored s) (p_ltok s) (p_lmid s) true (p_ntok s) (p_log s).
 
 (* terminate: publish once, Shutdown *)
@@ -112,7 +113,7 @@ Definition p_advance (s : pstate) (c : Z) : pstate * list pout :=
     let cutl := take_le c (p_unconf s) in
     let notes := if p_notify s
                  then map (fun e => ToProd (DeliveryConfirmed (p_sess s) (fst e) (snd e))) cutl else [] in
-    (mkP (p_sess s) (p_notify s) (p_cur s) c (drop_le c (p_unconf s)) (p_reg s) (p_nonce s) (p_demand s) (p_span s)
+    (mkP (p_sess s) (p_notify s) (p_fix s) (p_cur s) c (drop_le c (p_unconf s)) (p_reg s) (p_nonce s) (p_demand s) (p_span s)
          (p_hs s) (p_tok s) (p_pmid s) (p_pseq s) (p_stored s) (p_ltok s) (p_lmid s) (p_failed s) (p_ntok s) (p_log s),
      notes).
 
@@ -125,18 +126,19 @@ Definition p_allow (s : pstate) : pstate * list pout :=
   if negb (hs_eqb (p_hs s) HsIdle) || (p_cur s >=? p_demand s) then (s, [])
   else if p_cur s >=? maxI64 - 1 then p_terminate s
   else
-    (mkP (p_sess s) (p_notify s) (p_cur s) (p_conf s) (p_unconf s) (p_reg s) (p_nonce s) (p_demand s) (p_span s)
+    (mkP (p_sess s) (p_notify s) (p_fix s) (p_cur s) (p_conf s) (p_unconf s) (p_reg s) (p_nonce s) (p_demand s) (p_span s)
          HsCredit (p_ntok s) (p_pmid s) (p_pseq s) (p_stored s) (p_ltok s) (p_lmid s) (p_failed s) (p_ntok s + 1) (p_log s),
      [ToProd (RequestNext (p_sess s) (p_ntok s))]).
 
 Definition p_set_demand (s : pstate) (d span : Z) : pstate :=
-  mkP (p_sess s) (p_notify s) (p_cur s) (p_conf s) (p_unconf s) (p_reg s) (p_nonce s) d span
+  mkP (p_sess s) (p_notify s) (p_fix s) (p_cur s) (p_conf s) (p_unconf s) (p_reg s) (p_nonce s) d span
       (p_hs s) (p_tok s) (p_pmid s) (p_pseq s) (p_stored s) (p_ltok s) (p_lmid s) (p_failed s) (p_ntok s) (p_log s).
 
 (* handleRegisterConsumer *)
 Definition p_register (s : pstate) (nonce : Z) : pstate * list pout :=
   let s1 := if negb (p_reg s) || negb (nonce =? p_nonce s)
-            then mkP (p_sess s) (p_notify s) (p_cur s) (p_conf s) (p_unconf s) true nonce (p_cur s) (p_span s)
+            then mkP (p_sess s) (p_notify s) (p_fix s) (p_cur s) (p_conf s) (p_unconf s) true nonce
+                     (if p_fix s then Z.min (p_demand s) (p_cur s) else p_cur s) (p_span s)
                      (p_hs s) (p_tok s) (p_pmid s) (p_pseq s) (p_stored s) (p_ltok s) (p_lmid s) (p_failed s) (p_ntok s) (p_log s)
             else s in
   (* NewRegistrationAck rejects a blank session/nonce and nextSeq <= 0 *)
@@ -175,11 +177,11 @@ Definition p_produced (s : pstate) (sess tok mid : Z) : pstate * list pout :=
     let seq := p_cur s + 1 in
     if (mid =? 0) || (seq <=? 0) then
       (* NewUnconfirmedMessage / NewStoreResult reject: terminal, handshake left in the store phase *)
-      p_terminate (mkP (p_sess s) (p_notify s) (p_cur s) (p_conf s) (p_unconf s) (p_reg s) (p_nonce s) (p_demand s) (p_span s)
+      p_terminate (mkP (p_sess s) (p_notify s) (p_fix s) (p_cur s) (p_conf s) (p_unconf s) (p_reg s) (p_nonce s) (p_demand s) (p_span s)
                        HsStore (p_tok s) mid (if seq <=? 0 then p_pseq s else seq) (p_stored s) (p_ltok s) (p_lmid s)
                        (p_failed s) (p_ntok s) (p_log s))
     else
-      (mkP (p_sess s) (p_notify s) seq (p_conf s) (p_unconf s ++ [(mid, seq)]) (p_reg s) (p_nonce s) (p_demand s) (p_span s)
+      (mkP (p_sess s) (p_notify s) (p_fix s) seq (p_conf s) (p_unconf s ++ [(mid, seq)]) (p_reg s) (p_nonce s) (p_demand s) (p_span s)
            HsStoredAck (p_tok s) mid seq true (p_ltok s) (p_lmid s) (p_failed s) (p_ntok s) (p_log s ++ [mid]),
        [ToProd (Stored (p_sess s) (p_tok s) mid seq)]).
 
@@ -188,7 +190,7 @@ Definition p_storedack (s : pstate) (sess tok mid : Z) : pstate * list pout :=
   if negb (sess =? p_sess s) then (s, [])
   else if hs_eqb (p_hs s) HsStoredAck && (tok =? p_tok s) && (mid =? p_pmid s) then
     let o1 := p_emit s (p_pmid s, p_pseq s) in
-    let s1 := mkP (p_sess s) (p_notify s) (p_cur s) (p_conf s) (p_unconf s) (p_reg s) (p_nonce s) (p_demand s) (p_span s)
+    let s1 := mkP (p_sess s) (p_notify s) (p_fix s) (p_cur s) (p_conf s) (p_unconf s) (p_reg s) (p_nonce s) (p_demand s) (p_span s)
                   HsIdle 0 0 0 false (p_tok s) (p_pmid s) (p_failed s) (p_ntok s) (p_log s) in
     let '(s2, o2) := p_allow s1 in
     (s2, o1 ++ o2)
@@ -444,8 +446,8 @@ Definition sys_step_out (s : sys) (o : op) : sys * (list pout * list cout) :=
 
 Definition sys_step (s : sys) (o : op) : sys := fst (sys_step_out s o).
 
-Definition sys_init (sess : Z) (notify : bool) (window : Z) : sys :=
-  mkS (p_init sess notify) (c_init window) (outs_toPC (c_init_out window)) [] [] [].
+Definition sys_init (sess : Z) (notify : bool) (window : Z) (fx : bool) : sys :=
+  mkS (p_init sess notify fx) (c_init window) (outs_toPC (c_init_out window)) [] [] [].
 
 Definition run (s : sys) (ops : list op) : sys := fold_left sys_step ops s.
 
@@ -513,9 +515,9 @@ Fixpoint first_diff (k : nat) (m o : list (list Z)) : option (nat * list Z) :=
   | [], _ :: _ => Some (k, [])
   end.
 
-Definition full_trace (sess : Z) (notify : bool) (window : Z) (ops : list op) : list (list Z) :=
-  enc_obs (sys_init sess notify window) ([], c_init_out window) :: trace (sys_init sess notify window) ops.
+Definition full_trace (sess : Z) (notify : bool) (window : Z) (fx : bool) (ops : list op) : list (list Z) :=
+  enc_obs (sys_init sess notify window fx) ([], c_init_out window) :: trace (sys_init sess notify window fx) ops.
 
 (* observed: the implementation's observation of the initial state followed by one observation per op *)
-Definition check_case (sess : Z) (notify : bool) (window : Z) (ops : list op) (observed : list (list Z)) : option (nat * list Z) :=
-  first_diff 0 (full_trace sess notify window ops) observed.
+Definition check_case (sess : Z) (notify : bool) (window : Z) (fx : bool) (ops : list op) (observed : list (list Z)) : option (nat * list Z) :=
+  first_diff 0 (full_trace sess notify window fx ops) observed.
